@@ -462,3 +462,72 @@ proof fn lemma_ashr(p: nat, w: nat, y: nat, s: nat, msb: bool)
     }
     lemma_bits_bound(ashr_val(p, w, y, msb), w);
 }
+
+// ---- value primitives: select / trunc / concat / assign -------------------------------------------------------------
+proof fn lemma_bor_comm(a: nat, b: nat)
+    ensures bor(a, b) == bor(b, a)
+    decreases a + b
+{
+    if a != 0 || b != 0 { lemma_bor_comm(a / 2, b / 2); }
+}
+
+/// part select as the code computes it: (p >> end) & mask(width)
+proof fn lemma_select(p: nat, end: nat, width: nat)
+    ensures band(p / pow2(end), low(width)) < pow2(width),
+            forall|k: nat| #[trigger] bit(band(p / pow2(end), low(width)), k) == (k < width && bit(p, k + end))
+{
+    lemma_band_low(p / pow2(end), width);
+    assert forall|k: nat| #[trigger] bit(band(p / pow2(end), low(width)), k) == (k < width && bit(p, k + end)) by {
+        lemma_band_bit(p / pow2(end), low(width), k);
+        lemma_low_bit(width, k);
+        lemma_shr_bit(p, end, k);
+    }
+}
+
+/// concatenation {a, b} as the code computes it: (a << wb) | b
+proof fn lemma_concat(a: nat, b: nat, wa: nat, wb: nat)
+    requires a < pow2(wa), b < pow2(wb)
+    ensures bor(a * pow2(wb), b) == a * pow2(wb) + b, a * pow2(wb) + b < pow2(wa + wb),
+            forall|k: nat| #[trigger] bit(a * pow2(wb) + b, k) == (if k < wb { bit(b, k) } else { bit(a, (k - wb) as nat) })
+{
+    let hi = a * pow2(wb);
+    lemma_pow2_pos(wb);
+    lemma_pow2_adds(wa, wb);
+    lemma_mod_multiples_basic(a as int, pow2(wb) as int);
+    lemma_bor_add(b, hi, wb);
+    lemma_bor_comm(hi, b);
+    assert(hi + b < pow2(wa) * pow2(wb)) by (nonlinear_arith) requires hi == a * pow2(wb), a + 1 <= pow2(wa), b < pow2(wb);
+    assert forall|k: nat| #[trigger] bit(hi + b, k) == (if k < wb { bit(b, k) } else { bit(a, (k - wb) as nat) }) by {
+        lemma_bor_bit(hi, b, k);
+        lemma_shl_bit(a, wb, k);
+        if k >= wb { lemma_bit_high(b, wb, k); }
+    }
+}
+
+/// field write as the code computes it: (p & (mask(w) ^ R)) | ((v << end) & R), R = the ones at positions end..=beg
+proof fn lemma_assign(p: nat, v: nat, w: nat, beg: nat, end: nat, r: nat)
+    requires p < pow2(w), end <= beg < w, forall|k: nat| #[trigger] bit(r, k) == (end <= k && k <= beg)
+    ensures bor(band(p, bxor(low(w), r)), band(v * pow2(end), r)) < pow2(w),
+            forall|k: nat| #[trigger] bit(bor(band(p, bxor(low(w), r)), band(v * pow2(end), r)), k)
+                == (if end <= k && k <= beg { bit(v, (k - end) as nat) } else { bit(p, k) })
+{
+    let res = bor(band(p, bxor(low(w), r)), band(v * pow2(end), r));
+    assert forall|k: nat| #[trigger] bit(res, k) == (if end <= k && k <= beg { bit(v, (k - end) as nat) } else { bit(p, k) }) by {
+        lemma_bor_bit(band(p, bxor(low(w), r)), band(v * pow2(end), r), k);
+        lemma_band_bit(p, bxor(low(w), r), k);
+        lemma_band_bit(v * pow2(end), r, k);
+        lemma_bxor_bit(low(w), r, k);
+        lemma_low_bit(w, k);
+        lemma_shl_bit(v, end, k);
+        if k >= w { lemma_bit_high(p, w, k); }
+    }
+    assert forall|k: nat| k >= w implies !#[trigger] bit(res, k) by { lemma_bit_high(p, w, k); }
+    lemma_bits_bound(res, w);
+}
+
+/// truncation bit by bit
+proof fn lemma_trunc_bits(p: nat, m: nat, w: nat, k: nat)
+    ensures b4(p % pow2(w), m % pow2(w), k) == (if k < w { b4(p, m, k) } else { B4::Zero })
+{
+    lemma_mod_bit(p, w, k); lemma_mod_bit(m, w, k);
+}
